@@ -8,6 +8,7 @@ import time
 SEMANTIC = [
     'postcondition not satisfied',
     'precondition not satisfied',
+    'precondition not met',
     'invariant not satisfied',
     'assertion failed',
     'possible arithmetic underflow/overflow',
